@@ -192,6 +192,47 @@ def fam_skl(ctx):
     return replays
 
 
+LV_SWITCHES = ["BugPointBlockSearch", "BugFirstHitWins", "BugDropTombstones", "BugDiscardAboveMark", "BugStopAtFirstLevel"]
+LV_BY_PROP = {"C10": ["BugPointBlockSearch", "BugFirstHitWins", "BugStopAtFirstLevel"],
+              "C09": ["BugDropTombstones", "BugDiscardAboveMark", "BugFirstHitWins"]}
+
+
+def lv_cfg(k, t, mt, l0, ratio, on=(), export=False):
+    kw = dict(K=k, T=t, MAXTABLES=mt, L0=l0, RATIO=ratio, EXPORT="CONSTRAINT Export" if export else "")
+    for s in LV_SWITCHES:
+        kw[s] = T if s in on else F
+    return tlc.fill("MC_Levels.cfg.tmpl", **kw)
+
+
+def fam_levels(ctx):
+    """Levels.tla: every sequence of flushed tables over the version universe, every watermark, block
+    size and filter answer; LookupCorrect (C10), CompactionPreserves/OnlyShadowedDisappear (C09) in every
+    state of the compaction cascade. Returns the exported scenarios (JSON lines)."""
+    bounds = [(2, 2, 2, 1, 1)] if ctx.quick else [(2, 2, 2, 1, 1), (2, 2, 2, 1, 2), (2, 3, 1, 1, 1), (3, 2, 1, 1, 1)]
+    scen = []
+    for i, b in enumerate(bounds):
+        r = ctx.model_check("Levels", lv_cfg(*b, export=(i == 0 or b[2] == 1)), timeout=3400)
+        expect_ok(ctx, r, "Levels %s" % (b,))
+        seen = set()
+        for ln in r["out"].splitlines():
+            if ln.startswith('<<"SCENARIO", "'):
+                body = ln[len('<<"SCENARIO", "'):-len('">>')].replace('\\"', '"')
+                if body not in seen:
+                    seen.add(body)
+                    scen.append((b, body))
+    ctx.cov.setdefault("model_bounds", {})["Levels(keys,versions,tables,L0Target,Ratio)"] = bounds
+    sws = LV_BY_PROP.get(ctx.id, LV_SWITCHES) if ctx.quick else LV_SWITCHES
+
+    def one(s):
+        rr = ctx.model_check("Levels", lv_cfg(2, 2, 2, 1, 1, on=(s,)), timeout=1800, expect_violation=True, workers=4)
+        expect_violation(ctx, rr, s)
+        m = re.findall(r"Invariant (\w+) is violated", rr["out"])
+        return s, (m[0] if m else "violated")
+
+    ctx.cov.setdefault("deviation_switches", {}).update(dict(ctx.par(one, sws, workers=4)))
+    return scen
+
+
 FAMILIES = {"wm": fam_wm, "txn": fam_txn, "crash": fam_crash, "crash_torn": lambda ctx: fam_crash(ctx, torn=True)}
 
 
